@@ -665,7 +665,7 @@ def _succ_next_table(ctx, f, stmts, A, B):
     want = {"eq": {"A", "B"}, "lt": {"B"}, "gt": {"A"}}
     seen = {}
     for d in defs:
-        rel = _len_rel(ctx, f, d)
+        rel = _len_rel(ctx, f, d, A, B)
         ret = [x for x in ast.walk(d) if isinstance(x, ast.Return)]
         if rel is None or len(ret) != 1 or not isinstance(ret[0].value, ast.Tuple):
             ctx.bad(R, f, d, "__and__: cannot classify this succ_next "
@@ -719,7 +719,7 @@ def _succ_next_table(ctx, f, stmts, A, B):
                     text_="succ_next %s" % rel)
 
 
-def _len_rel(ctx, f, d):
+def _len_rel(ctx, f, d, A, B):
     """Arity case a nested def belongs to, from the if/elif/else chain on
     len_a / len_b that contains it."""
     from ..cfg import parent_block
@@ -741,12 +741,18 @@ def _len_rel(ctx, f, d):
             break
     n = top
     rels = []
+    av = _arity_vars(f, A, B)
     while True:
         p = pat.cmp_raw(n.test)
         r = None
-        if p and {p[1], p[2]} == {"len_a", "len_b"}:
-            r = "eq" if p[0] == "==" else ("lt" if (p[0], p[1]) == ("<", "len_a")
-                                            else "gt" if (p[0], p[1]) == ("<", "len_b") else None)
+        if p and p[1] in av and p[2] in av and av[p[1]] != av[p[2]]:
+            first = av[p[1]]        # side of the left operand
+            if p[0] == "==":
+                r = "eq"
+            elif p[0] == "<":
+                r = "lt" if first == "A" else "gt"
+            elif p[0] == "<=":
+                r = None
         rels.append(r)
         if d in n.body:
             return r
@@ -765,7 +771,7 @@ def _succ_yield_table(ctx, f, A, B):
             and n.name == "succ_yield"]
     want = {"eq": 0, "lt": 1, "gt": 0}   # index of the returned parameter
     for d in defs:
-        rel = _len_rel(ctx, f, d)
+        rel = _len_rel(ctx, f, d, A, B)
         ret = [x for x in ast.walk(d) if isinstance(x, ast.Return)]
         names = [a.arg for a in d.args.args]
         if rel is None or len(ret) != 1 or len(names) != 2:
